@@ -1,25 +1,31 @@
 import HW.Model.Proc
 import HW.Spec.Lifecycle
+import HW.Proofs.ProcFuel
+import HW.Proofs.ProcReplayAux
+import HW.Proofs.ProcCancel
+import HW.Proofs.ProcPill
 namespace HW.Proc
 
 /-- user deliveries over all incarnations are a prefix of the history: nothing duplicated,
     reordered, given a wrong sender, and the message that panicked is never delivered again. -/
 theorem replay_prefix (max mw : Nat) (script : List Outcome) (batches : List (List Msg)) :
     replayPrefixOK batches (runHistory max mw script batches).1.trace = true := by
-  sorry
+  unfold replayPrefixOK
+  rw [List.isPrefixOf_iff_prefix]
+  exact replay_prefix_aux max mw script batches (fuel_sufficient_aux max mw script batches)
 
 /-- an actor that is still alive at the end has received every message of the history. -/
 theorem replay_complete (max mw : Nat) (script : List Outcome) (batches : List (List Msg))
     (hne : ∀ b ∈ batches, b ≠ [])
     (hf : (runHistory max mw script batches).1.fuelOut = false)
     (ha : (runHistory max mw script batches).1.stopped = false) :
-    userRecvs (runHistory max mw script batches).1.trace = allUsers batches := by
-  sorry
+    userRecvs (runHistory max mw script batches).1.trace = allUsers batches :=
+  replay_complete_aux max mw script batches hf ha
 
 /-- every cancel comes after the final Stopped and the unregistration (and after the drain). -/
 theorem cancel_ok (max mw : Nat) (script : List Outcome) (batches : List (List Msg)) :
-    cancelOK batches (runHistory max mw script batches).1.trace = true := by
-  sorry
+    cancelOK batches (runHistory max mw script batches).1.trace = true :=
+  cancel_ok_aux max mw script batches (fuel_sufficient_aux max mw script batches)
 
 /-- partial form of "every pill is cancelled": with at most one pill in the history, and the restart
     budget never exhausted, the pill is cancelled exactly once — whatever panics happen, also
@@ -29,12 +35,12 @@ theorem single_pill_cancelled (max mw : Nat) (script : List Outcome) (batches : 
     (h1 : (pillsOf batches.flatten).length ≤ 1)
     (hf : (runHistory max mw script batches).1.fuelOut = false)
     (hm : Ev.ev .maxRestarts ∉ (runHistory max mw script batches).1.trace) :
-    allPillsCancelled batches (runHistory max mw script batches).1.trace = true := by
-  sorry
+    allPillsCancelled batches (runHistory max mw script batches).1.trace = true :=
+  single_pill_aux max mw script batches h1 hf hm
 
 /-- the fuel given by `runHistory` is never exhausted. -/
 theorem fuel_sufficient (max mw : Nat) (script : List Outcome) (batches : List (List Msg)) :
-    (runHistory max mw script batches).1.fuelOut = false := by
-  sorry
+    (runHistory max mw script batches).1.fuelOut = false :=
+  fuel_sufficient_aux max mw script batches
 
 end HW.Proc
